@@ -475,11 +475,21 @@ def sanitized_here(fl, site_bb, desc):
         if none_succ is not None:
             good_edges.append((bb, none_succ))
             why.append("None edge at %s" % loc_str(b.blocks[bb].term.span))
+    mentions_root = lambda k: desc_mentions(k, lambda d: d[0] == "place" and d[1].split(".")[0].split("[")[0] in roots)
     for (bb, test, t_succ, f_succ) in bool_atoms(fl):
+        if isinstance(test, tuple) and test[0] == "place" and "." not in test[1]:
+            # a named boolean: the edge on which it is true / false implies the tests it was computed from
+            for (succ_, lab) in ((t_succ, "true"), (f_succ, "false")):
+                if succ_ is None:
+                    continue
+                for (it_, truth_) in panic.implied_tests(fl, bb, succ_):
+                    if isinstance(it_, tuple) and it_[0] == "call" and it_[1].split("::")[-1] in ("contains_key", "has_node", "has_nodes", "contains") and truth_ is True and any(mentions_root(k) for k in it_[2][1:]):
+                        good_edges.append((bb, succ_))
+                        why.append("%s is %s (implies %s) at %s" % (test[1], lab, it_[1].split("::")[-1], loc_str(b.blocks[bb].term.span)))
+            continue
         if not (isinstance(test, tuple) and test[0] == "call"):
             continue
         nm = test[1].split("::")[-1]
-        mentions_root = lambda k: desc_mentions(k, lambda d: d[0] == "place" and d[1].split(".")[0].split("[")[0] in roots)
         if nm in ("contains_key", "has_node", "has_nodes", "contains"):
             if any(mentions_root(k) for k in test[2][1:]) and t_succ is not None:
                 good_edges.append((bb, t_succ))
